@@ -887,6 +887,10 @@ class FnAnalysis(Analysis):
             fc = self.folded_const(e)
             if fc is not None:
                 return fc
+        if self.recv and isinstance(e.value, ast.Name) and e.value.id == self.recv and isinstance(e.ctx, ast.Load) and (self.self_cls or self.fn.cls) is not None:
+            tm = self.prog.lookup_method(self.self_cls or self.fn.cls, e.attr)
+            if tm is not None and tm.kind in ("method", "staticmethod", "classmethod"):
+                return Val(kind="bmeth", types=frozenset([tm.qual]))        # the method itself, as a value
         base = self.val(e.value, st)
         if base.built and base.types and isinstance(e.ctx, ast.Load):
             missing = sorted(q for q in base.types if q in self.prog.classes and not self.has_attribute(self.prog.classes[q], e.attr))
@@ -1007,7 +1011,7 @@ class FnAnalysis(Analysis):
         lo = self.cint(sl.lower) if sl.lower is not None else 0
         hi = self.cint(sl.upper) if sl.upper is not None else None
         lb, exact = 0, None
-        if sl.step is None and lo == 0 and isinstance(sl.upper, ast.Name) and st is not None:
+        if sl.step is None and lo == 0 and hi is None and isinstance(sl.upper, ast.Name) and st is not None:
             n = st.env.get(sl.upper.id)
             if n is not None and n.ilb is not None and n.ilb >= 0:
                 # x[:n] has length min(len(x), n); with len(x) >= n established it is exactly n
@@ -1238,6 +1242,18 @@ class FnAnalysis(Analysis):
                 return self.call_local(e, self.local_defs[name], argv, kwv, st)
             if name in st.env and st.env[name].kind == "cls" and st.env[name].classes:
                 return self.construct(e, st.env[name].classes, argv, kwv, st)
+            if name in st.env and st.env[name].kind == "bmeth" and st.env[name].types:
+                # a bound method of the receiver held in a local (encode = self._encode_x; table.get(kind)): call every candidate
+                outv = None
+                recv_v = st.env.get(self.recv, CLEAN) if self.recv else CLEAN
+                for q in sorted(st.env[name].types):
+                    tf = self.prog.funcs.get(q)
+                    if tf is None:
+                        continue
+                    v = self.call_repo(e, tf, self.self_cls or tf.cls, ([recv_v] if tf.kind in ("method", "property") else []) + argv, kwv, st)
+                    outv = v if outv is None else join_val(outv, v)
+                if outv is not None:
+                    return outv
             if name in st.env and st.env[name].kind != "cls":
                 # call through a local variable holding a function / unknown callable
                 self.R.calls_unresolved += 1
@@ -1469,14 +1485,22 @@ class FnAnalysis(Analysis):
                         size = _struct.calcsize(fmt)
                     except _struct.error:
                         size = None
-                    off = self.cint(e.args[1]) if (meth[1] == "unpack_from" and len(e.args) > 1) else 0
+                    offn = e.args[1] if (meth[1] == "unpack_from" and len(e.args) > 1) else dict((k.arg, k.value) for k in e.keywords).get("offset")
+                    off = self.cint(offn) if offn is not None else 0
+                    rem = None
+                    if off is None and isinstance(offn, ast.Name) and offn.id in st.env and (st.env[offn.id].ilb or -1) >= 0:
+                        bk = self.key_of(e.args[0]) if e.args else None
+                        rem = max((p[2] for p in st.lenge if len(p) == 3 and p[0] == bk and p[1] == offn.id), default=None)
                     if meth[1] == "unpack" and size is not None and buf.exact == size:
                         self.raiser(e, "struct.error", "", proved=f"exactly {size} bytes")
+                    elif meth[1] == "unpack_from" and size is not None and rem is not None and rem >= size:
+                        self.raiser(e, "struct.error", "", proved=f"len(buffer) - {offn.id} >= {rem} >= {size} and {offn.id} >= 0")
                     elif meth[1] == "unpack_from" and size is not None and off is not None and off >= 0 and buf.lb >= off + size:
                         self.raiser(e, "struct.error", "", proved=f"buffer length >= {buf.lb} >= offset {off} + {size}")
                     else:
                         self.raiser(e, "struct.error", f"Struct({fmt!r}).{meth[1]} on peer data whose length is only known to be >= {buf.lb}")
-                return Val(buf.taint, "list", elem=Val(buf.taint, "any"))
+                signed = any(c in "bhilqfd" for c in fmt)
+                return Val(buf.taint, "list", elem=Val(buf.taint, "any" if any(c in "sp" for c in fmt) else "int", ilb=None if signed or any(c in "sp" for c in fmt) else 0))
         # ---- builtins and library functions
         if meth is None or ext:
             if name == "dict" and not e.args and e.keywords and all(k.arg for k in e.keywords):
@@ -1637,6 +1661,8 @@ class FnAnalysis(Analysis):
                 return Val(taint, "str")
             if mname in BYTES_RESULT_METHODS:
                 return Val(taint, "bytes")
+            if mname == "get" and recv.elem is not None and recv.elem.kind == "bmeth":
+                return recv.elem.but(may_none=True)        # a dispatch table of bound methods
             if mname in ("get", "find") and taint:
                 # mapping.get(key[, default]) / Element.get / Element.find on peer-controlled content: absent -> None (or the default)
                 dflt = argv[1] if (mname == "get" and len(argv) > 1) else (kwv.get("default") if mname == "get" else None)
